@@ -6,6 +6,8 @@
 // leaves the test.  Observation per half: failure count, how often the crash hook (UtestShell::setCrashMethod; reached through
 // UT_CRASH() by a reporter whose crashOnFailure flag is set) ran, op at which the test was left, failure text, every value returned to
 // the caller in canonical form (:kind payload, tagged with op index and field), the bytes of every output buffer.
+// A scenario may consist of several tests (separated by :T): each runs in its own TestTestingFixture, one after the other, the mock
+// state and the pointers the user holds are kept in between (only what the scenario itself does -- clear, a failure -- changes them).
 // Scenario grammar: see checks/C19.py.
 #include "CppUTest/TestHarness.h"
 #include "CppUTest/TestTestingFixture.h"
@@ -247,10 +249,10 @@ static bool doSupport(const c19_op& o, const std::string& f)
     if (IS("removeAllComparatorsAndCopiers")) { m->removeAllComparatorsAndCopiers(); return true; }
     return false;
 }
+static void cppReset() { m = nullptr; e = nullptr; a = nullptr; }
 static void cppBody()
 {
-    m = nullptr; e = nullptr; a = nullptr;
-    for (int i = 0; i < c19.n; i++) {
+    for (int i = c19.lo; i < c19.hi; i++) {
         const c19_op& o = c19.ops[i];
         std::string f = o.field;
         bool ok = false;
@@ -263,7 +265,7 @@ static void cppBody()
         }
         if (!ok) c19_unknown_field();
     }
-    c19_at(c19.n);
+    c19_at(c19.hi);
 }
 static void cBody() { c19_c_body(); }
 
@@ -289,23 +291,32 @@ static void cleanup()
     mock().crashOnFailure(false);                 // ... and of the standard reporter (mock() selects it again)
     mock("", nullptr);
 }
-static void half(Out& o, void (*body)())
+static void half(Out& o, void (*body)(), void (*reset)())
 {
     for (auto& b : outs) std::fill(b.begin(), b.end(), 0xEE);
     rec = Rec();
-    size_t failures; std::string text;
-    {
-        TestTestingFixture fx;
-        fx.setTestFunction(body);
-        fx.runAllTests();
-        failures = fx.getFailureCount();
-        text = failures ? failureText(fx.getOutput().asCharString()) : "";
+    reset();
+    std::vector<std::string> tests;
+    int lo = 0;
+    for (int i = 0; i <= c19.n; i++) {
+        if (i < c19.n && c19.ops[i].table != 'T') continue;
+        c19.lo = lo; c19.hi = i; lo = i + 1;
+        rec.crashes = 0; rec.at = c19.lo;
+        size_t failures; std::string text;
+        {
+            TestTestingFixture fx;
+            fx.setTestFunction(body);
+            fx.runAllTests();
+            failures = fx.getFailureCount();
+            text = failures ? failureText(fx.getOutput().asCharString()) : "";
+        }
+        std::string t = hx(failures) + " " + hx(rec.crashes) + " " + (rec.at >= c19.hi ? std::string("~") : hx((unsigned)rec.at)) + " "
+                        + (failures ? hbytes(text.data(), text.size()) : std::string("~"));
+        tests.push_back(t);
     }
     cleanup();
-    o << hx(failures);
-    o << hx(rec.crashes);
-    if (rec.at >= c19.n) o << "~"; else o << hx((unsigned)rec.at);
-    o << (failures ? hbytes(text.data(), text.size()) : std::string("~"));
+    o << hx(tests.size());
+    for (auto& t : tests) o << t;
     o << hx(rec.vals.size());
     for (auto& v : rec.vals) o << v;
     int n = 0; for (auto& op : ops) if (op.out) n++;
@@ -327,6 +338,7 @@ int main()
             if (s.size() < 2 || s[0] != ':') { fprintf(stderr, "C19 harness: op symbol expected, got %s\n", s.c_str()); return 3; }
             c19_op op; memset(&op, 0, sizeof op);
             op.table = s[1];
+            if (s == ":T") { op.field = ""; ops.push_back(op); continue; }
             arena.push_back(s.size() > 3 ? s.substr(3) : std::string());
             op.field = arena.back().c_str();
             while (!t.end() && t.peek()[0] != ':') {
@@ -349,8 +361,8 @@ int main()
             ops.push_back(op);
         }
         c19.ops = ops.data(); c19.n = (int)ops.size();
-        o << ":c"; half(o, cBody);
-        o << ":x"; half(o, cppBody);
+        o << ":c"; half(o, cBody, c19_c_reset);
+        o << ":x"; half(o, cppBody, cppReset);
         o.flush();
     }
     fflush(stdout);
